@@ -14,6 +14,12 @@ TRUST = ("trusted base: CPython, torch/numpy/hypothesis as installed, the harnes
 
 # id -> (level, technique, text, design_ref, note)
 REG = {
+    "C01": ("exploration", "Hypothesis-generated (stack, mode, access history) + exhaustive mode permutations vs. per-item reference evaluation",
+            "random dataset stacks x mode sequences (1-6 items incl. index and ctx.*, fused groups with per-call nonces) x access "
+            "histories (int/negative/slice/list/iter/len), exhaustive permutations of <=4 of 5 items over 4 fused layouts, "
+            "TorchWrapper, shipped XTransformWrapper(KDMixWrapper(seed)) and the static mode helpers; values, tuple/bare shape, "
+            "exact ctx equality and joint-load consistency are compared with a reference evaluation of the stack",
+            "DESIGN.md §3 C01", TRUST),
     "C02": ("exploration", "Hypothesis-generated recursive dataset stacks vs. index-map composition computed from the spec",
             "random stacks (depth<=5, deep facet <=8) of KDSubset / shipped subset wrappers / KDConcatDataset (balanced or not) / "
             "KDWrappers over token roots; every valid positive and negative index and three items compared with the composed map; "
